@@ -7,6 +7,20 @@ Families:
   equalfn  the same function built by two different expression trees (algebraic identities, for both
            families and every model type): the two real results must compare equal with `==`, and the
            two model results must hold the same terms (T5.4, equal functions => equal dicts)
+  cancel   operator expressions and in-place chains in which the highest-indexed variable(s) cancel exactly
+           ((a + t) - t, -(t - (a + t)), a += t; a *= 2; a -= 2t, (a + t) * {(): 1} - t, model - raw dict ...), on all
+           ten types with integer labels: the result carries stale cached bookkeeping (max_index, num_binary_variables,
+           variables) and must still evaluate like its operands for dict AND for list / tuple assignments
+  extreme  ORACLE-ONLY (floats that underflow / overflow / inf are outside the exact-rational model): scalar `*`, reflected
+           `*`, `*=`, `/`, `/=`, unary `-`, and model products with float coefficients and scalars of extreme magnitude
+           (1e-200 * 1e-200, v / 1e308 twice, v / inf, v * 0.0, 5e-324 / 2, numpy.float64 scalars); after every step the
+           result must be stored canonically (sorted duplicate-free keys, NO zero coefficient), compare equal (==, len,
+           num_terms) to the canonical model built from the function it denotes, keep its type, leave the operand alone,
+           and for scalar steps hold exactly the IEEE product / quotient of every coefficient
+
+In every family the direct oracle evaluates `result.value(x)` with a dict assignment and, when the labels are the integers
+0..n-1 (always for the Matrix types), also with a list and a tuple assignment *sized to the variables actually present in
+the result* (length 1 + largest index that occurs in a key; `x[i]` is defined for every variable of the polynomial).
 """
 import itertools, json
 from fractions import Fraction
@@ -286,6 +300,14 @@ def oracle(case, canon, obj, log):
     L = Labels(case["labels"])
     n = case["n"]
     spin = case["fam"] == "spin"
+    # sequence assignments (list / tuple): `x[i]` is the value of variable i, so a sequence is a legal assignment as soon as
+    # it reaches every variable that occurs in the polynomial — it is sized to the variables present in the result, not to
+    # the label universe (the cached max_index / num_binary_variables of an operator result may be stale and larger)
+    seqlen = None
+    if case["labels"] == "int" and obj is not None:
+        present = [i for k in obj for i in k]
+        if all(isinstance(i, int) and not isinstance(i, bool) and 0 <= i < n for i in present):
+            seqlen = (max(present) + 1) if present else 0
     for bits in itertools.product((0, 1), repeat=n):
         xs = {i: Fraction((1 - 2 * b) if spin else b) for i, b in enumerate(bits)}
         try:
@@ -296,6 +318,18 @@ def oracle(case, canon, obj, log):
         got = Fraction(obj.value(sol)) if obj else Fraction(0)
         if got != want:
             return "value mismatch at %s: result gives %s, operands give %s" % (sol, got, want)
+        if seqlen is not None and not any(bits[seqlen:]):          # one representative per prefix
+            vals = [(1 - 2 * b) if spin else b for b in bits[:seqlen]]
+            for cont in (list, tuple):
+                x = cont(vals)
+                try:
+                    got = Fraction(obj.value(x))
+                except Exception as e:
+                    return ("result %r: value(%r) [%s assignment covering every variable of the polynomial] raised %s: %s; "
+                            "the operands give %s" % (dict(obj), x, cont.__name__, type(e).__name__, str(e)[:200], want))
+                if got != want:
+                    return "value mismatch at the %s assignment %r: result gives %s, operands give %s" % (
+                        cont.__name__, x, got, want)
     if canon["type"] in DEG2 and any(len(k) > 2 for k, _ in canon["terms"]):
         return "degree-2 type holds a key with more than two labels"
     return None
@@ -586,6 +620,198 @@ def process_equalfn(ctx, cases):
                               "two expression trees denoting the same function gave models that do not compare equal: "
                               "%r vs %r" % (c1["terms"], c2["terms"]))
 
+# ------------------------------------------------------------------ cancel family
+
+def _ip(op, a, b): return {"t": op, "a": a, "b": b, "inplace": True}
+def _raw(p): return {"t": "raw", "p": p}
+def _scale(p, c): return [[k, fs(Fraction(v) * c)] for k, v in p]
+
+def cancel_templates():
+    """name -> builder(kind, pa, pt, kt) -> tree whose value is the polynomial `pa`: `pt` (every key holds one of the
+    highest labels) is added and taken away again by operators.  `kt` is the kind of the model that carries `pt`."""
+    return {
+        "add-sub": lambda k, pa, pt, kt: _b("sub", _b("add", _m(k, pa), _m(kt, pt)), _m(kt, pt)),
+        "neg-rsub": lambda k, pa, pt, kt: {"t": "neg", "a": _b("sub", _m(kt, pt), _b("add", _m(k, pa), _m(kt, pt)))},
+        "leaf-sub-raw": lambda k, pa, pt, kt: _b("sub", _m(k, pa + pt), _raw(pt)),
+        "neg-raw-rsub": lambda k, pa, pt, kt: {"t": "neg", "a": _b("sub", _raw(pt), _m(k, pa + pt))},
+        "inplace-chain": lambda k, pa, pt, kt: _ip("sub", _ip("mul", _ip("add", _m(k, _scale(pa, Fraction(1, 2))), _raw(pt)),
+                                                              _num("2")), _raw(_scale(pt, 2))),
+        "product-minus": lambda k, pa, pt, kt: _b("sub", _b("mul", _m(k, pa + pt), _raw([[[], "1"]])), _m(kt, pt)),
+        "add-neg": lambda k, pa, pt, kt: _b("add", _b("add", _m(k, pa), _raw(pt)), {"t": "neg", "a": _m(kt, pt)}),
+        "div-sub": lambda k, pa, pt, kt: _ip("sub", {"t": "div", "a": _m(k, _scale(pa + pt, 2)), "c": "2", "inplace": False},
+                                             _m(kt, pt)),
+        "isub-self-part": lambda k, pa, pt, kt: _ip("add", _ip("sub", _m(k, pa + pt), _m(kt, pt)), _num("0")),
+    }
+
+def cancel_polys(rng, kind):
+    """(n, pa, pt): pa over the labels < m (possibly empty or a constant), pt non-empty with pairwise distinct squashed keys
+    that each hold a label >= m; coefficients of pt non-zero"""
+    deg2 = kind in DEG2
+    m = rng.choice([0, 1, 1, 2, 2, 3])
+    top = rng.choice([1, 1, 2])
+    n = m + top
+    pa, seen = [], set()
+    for _ in range(rng.choice([0, 1, 1, 2, 3])):
+        ln = rng.randint(0, min(m, 2 if deg2 else 3))
+        key = tuple(sorted(rng.sample(range(m), ln)))
+        if key in seen:
+            continue
+        seen.add(key)
+        c = gen_coef(rng)
+        pa.append([list(key), c if Fraction(c) != 0 else "1"])
+    pt, seen = [], set()
+    for _ in range(rng.choice([1, 1, 2, 3])):
+        hi = rng.randrange(m, n)
+        rest = rng.sample(range(n), rng.randint(0, min(n - 1, 1 if deg2 else 2)))
+        key = tuple(sorted(set(rest) | {hi}))
+        if key in seen:
+            continue
+        seen.add(key)
+        c = gen_coef(rng)
+        key = list(key)
+        rng.shuffle(key)                      # raw spelling: any order
+        pt.append([key, c if Fraction(c) != 0 else "-2"])
+    return n, pa, pt
+
+def cancel_cases(rng, reps):
+    out = []
+    T = cancel_templates()
+    for fam, kinds in (("bool", BOOL_KINDS), ("spin", SPIN_KINDS)):
+        for name in sorted(T):
+            for kind in kinds:
+                for _ in range(reps):
+                    n, pa, pt = cancel_polys(rng, kind)
+                    maxlen = max(len(k) for k, _ in pt)
+                    kt = rng.choice([k for k in kinds if k not in DEG2 or maxlen <= 2])
+                    if name == "neg-rsub" and kt in DEG2 and any(len(k) > 2 for k, _ in pa):
+                        kt = kind             # there the left operand (the carrier of pt) decides the result type
+                    tree = T[name](kind, pa, pt, kt)
+                    num = rng.choice(["int", "frac", "float"])
+                    if num == "float" and (not all_dyadic(tree) or not float_exact(tree, fam == "spin")):
+                        num = "frac"
+                    out.append({"family": "cancel", "template": name, "fam": fam, "n": n, "tree": tree, "labels": "int",
+                                "num": num})
+    return out
+
+# ------------------------------------------------------------------ extreme family (ORACLE-ONLY)
+
+EXT_COEFS = ["1e-200", "-1e-200", "3.0", "-2.5", "1e-160", "5e-324", "1e308", "-1e300", "2.5e-162", "1.0", "7e-310"]
+EXT_SCALARS = ["1e-200", "-1e-200", "1e-165", "1e200", "1e308", "-1e308", "inf", "-inf", "5e-324", "0.5", "2.0", "1e-300"]
+
+def extreme_cases(rng, reps):
+    """one model with float coefficients, then 1..3 operator steps; the history goes on with each result"""
+    out = []
+    for fam, kinds in (("bool", BOOL_KINDS), ("spin", SPIN_KINDS)):
+        for kind in kinds:
+            for r in range(reps):
+                n = rng.randint(1, 4)
+                p, seen = [], set()
+                for _ in range(rng.randint(1, 4)):
+                    # degree-2 types: one label per key, so that a model product never needs a third label
+                    key = tuple(sorted(rng.sample(range(n), rng.randint(0, min(n, 1 if kind in DEG2 else 2)))))
+                    if key in seen:
+                        continue
+                    seen.add(key)
+                    p.append([list(key), rng.choice(EXT_COEFS)])
+                steps = []
+                for _ in range(rng.choice([1, 1, 2, 3])):
+                    t = rng.choice(["mul", "mul", "rmul", "imul", "imul", "div", "div", "idiv", "idiv", "neg", "mulm", "imulm"])
+                    if kind in DEG2 and t in ("mulm", "imulm") and any(x["t"] in ("mulm", "imulm") for x in steps):
+                        t = "mul"             # a second model product would need a third label (a legitimate KeyError)
+                    if t in ("mulm", "imulm"):
+                        q = [[[rng.randrange(n)] if rng.random() < 0.7 else [], rng.choice(EXT_COEFS)]
+                             for _ in range(rng.randint(1, 2))]
+                        q = [[list(k), v] for k, v in {tuple(k): v for k, v in q}.items()]
+                        steps.append({"t": t, "q": q})
+                    elif t == "neg":
+                        steps.append({"t": t})
+                    else:
+                        sc = [x for x in EXT_SCALARS if not (t in ("mul", "rmul", "imul") and "inf" in x)] \
+                            + (["0.0", "-0.0"] if t in ("mul", "rmul", "imul") else [])
+                        steps.append({"t": t, "s": rng.choice(sc)})
+                out.append({"family": "extreme", "fam": fam, "kind": kind, "n": n, "p": p, "steps": steps,
+                            "np": rng.random() < 0.25})
+    # fixed: the documented shapes (product and quotient underflow, division by inf) on every type
+    for fam, kinds in (("bool", BOOL_KINDS), ("spin", SPIN_KINDS)):
+        for kind in kinds:
+            p = [[[0], "1e-200"], [[1, 2], "3.0"], [[], "-1e-200"]]
+            for steps in ([{"t": "mul", "s": "1e-200"}], [{"t": "rmul", "s": "1e-200"}], [{"t": "imul", "s": "1e-200"}, {"t": "imul", "s": "2.0"}],
+                          [{"t": "div", "s": "1e308"}, {"t": "div", "s": "1e308"}], [{"t": "idiv", "s": "1e200"}],
+                          [{"t": "div", "s": "inf"}], [{"t": "idiv", "s": "-inf"}], [{"t": "mul", "s": "1e-200"}, {"t": "neg"}]):
+                out.append({"family": "extreme", "fam": fam, "kind": kind, "n": 3, "p": p, "steps": steps, "np": False})
+    return out
+
+def run_extreme(case):
+    """ORACLE-ONLY: returns the first failing clause or None.  Written from the property text: results are stored
+    canonically (no zero coefficient), so that models denoting the same function compare equal; result type; operands."""
+    import math
+    import numpy as np
+    cls = cls_of(case["kind"])
+    fl = (lambda s: np.float64(float(s))) if case["np"] else float
+    a = cls({tuple(k): float(v) for k, v in case["p"]})
+    with np.errstate(all="ignore"):
+        for si, st in enumerate(case["steps"]):
+            t = st["t"]
+            before = dict(a)
+            want = None
+            if t in ("mulm", "imulm"):
+                other = cls({tuple(k): float(v) for k, v in st["q"]})
+                osnap = dict(other)
+            try:
+                if t == "mul":
+                    s = fl(st["s"]); r = a * s; want = {k: v * s for k, v in before.items()}
+                elif t == "rmul":
+                    s = float(st["s"]); r = s * a; want = {k: v * s for k, v in before.items()}
+                elif t == "imul":
+                    s = fl(st["s"]); r = a; r *= s; want = {k: v * s for k, v in before.items()}
+                elif t == "div":
+                    s = fl(st["s"]); r = a / s; want = {k: v / s for k, v in before.items()}
+                elif t == "idiv":
+                    s = fl(st["s"]); r = a; r /= s; want = {k: v / s for k, v in before.items()}
+                elif t == "neg":
+                    r = -a; want = {k: -v for k, v in before.items()}
+                elif t == "mulm":
+                    r = a * other
+                else:
+                    r = a; r *= other
+            except Exception as e:
+                return "step %d (%s) raised %s: %s" % (si, json.dumps(st), type(e).__name__, str(e)[:200])
+            inplace = t in ("imul", "idiv", "imulm")
+            if inplace and r is not a:
+                return "step %d (%s): the in-place form did not return self" % (si, json.dumps(st))
+            if not inplace and (r is a or dict(a) != before):
+                return "step %d (%s) modified or returned its operand" % (si, json.dumps(st))
+            if t in ("mulm", "imulm") and dict(other) != osnap:
+                return "step %d (%s) modified its right operand" % (si, json.dumps(st))
+            if type(r) is not cls:
+                return "step %d (%s) returned %s, expected %s" % (si, json.dumps(st), type(r).__name__, cls.__name__)
+            if any(isinstance(v, float) and math.isnan(v) for v in list(r.values()) + list((want or {}).values())):
+                return None          # inf * 0 / inf - inf: no function left to talk about
+            bad = common.keys_are_canonical(r)
+            if bad:
+                return "step %d (%s) on %r: result %r is not stored canonically: %s" % (si, json.dumps(st), before, dict(r), bad)
+            canon = cls({k: v for k, v in r.items() if v != 0})     # the canonical model of the function the result denotes
+            if not (r == canon and canon == r and not (r != canon) and len(r) == len(canon) and r.num_terms == len(canon)):
+                return "step %d (%s): result %r does not compare equal to the canonical model %r of the same function " \
+                       "(num_terms %r)" % (si, json.dumps(st), dict(r), dict(canon), r.num_terms)
+            if want is not None:
+                wantc = {k: v for k, v in want.items() if v != 0}
+                if dict(r) != wantc or len(r) != len(wantc):
+                    return "step %d (%s) on %r: result %r, but the coefficientwise IEEE results without the zeros are %r" % (
+                        si, json.dumps(st), before, dict(r), wantc)
+            a = r
+    return None
+
+def process_extreme(ctx, cases):
+    for c in cases:
+        ctx.case(c, len(c["p"]) >= 2)
+        ctx.count("extreme:" + c["kind"])
+        for st in c["steps"]:
+            ctx.count("extreme:step:" + st["t"])
+        bad = run_extreme(c)
+        if bad:
+            ctx.violation("C05:extreme", c, bad)
+
 # ------------------------------------------------------------------ driver of the check
 
 def expr_case(rng, depth=None):
@@ -667,11 +893,14 @@ def strip(t):
 
 def process(ctx, cases):
     eq = [c for c in cases if c["family"] == "equalfn" and "t1" in c]
-    cases = [c for c in cases if not (c["family"] == "equalfn" and "t1" in c)]
+    ext = [c for c in cases if c["family"] == "extreme"]
+    cases = [c for c in cases if not (c["family"] == "equalfn" and "t1" in c) and c["family"] != "extreme"]
     if cases:
         process_plain(ctx, cases)
     if eq:
         process_equalfn(ctx, eq)        # after the older families, so their reports keep their order
+    if ext:
+        process_extreme(ctx, ext)       # oracle-only: nothing is sent to the Lean driver
 
 def process_plain(ctx, cases):
     lines, impls = [], []
@@ -709,6 +938,8 @@ def check(ctx):
     cases += [expr_case(rng) for _ in range(ctx.scale(1500, 20000))]
     cases += [value_case(rng) for _ in range(ctx.scale(400, 4000))]
     cases += equalfn_cases(rng, ctx.scale(3, 30))      # generated last: the earlier streams are unchanged
+    cases += cancel_cases(rng, ctx.scale(3, 30))
+    cases += extreme_cases(rng, ctx.scale(12, 120))
     process(ctx, cases)
     if ctx.diffs and not ctx.violations:
         search(ctx)
